@@ -6,7 +6,7 @@
 V=${1:-$(dirname "$0")/../build/target/debug/vharness}
 SEED=${2:-5}
 # findings of the unchanged library are skipped so that the injected fault is what fires
-IG="panic:term_should_be_set,raft.rs:1245,append-not-contiguous,stuck-request-snapshot,raft.rs:945,raft.rs:1077,stuck-nonvoter-higher-term"
+IG="panic:term_should_be_set,assert_eq_last_index_self_raft_log_persisted,stuck-request-snapshot"
 bad=0
 for pair in no_panic:no_panic election_safety:election_safety sm_safety:sm_safety log_matching:log_matching \
     ready_contract:ready_contract ready_contract:ready_contract_sync prevote:prevote vote_restriction:vote_restriction \
